@@ -176,6 +176,13 @@ func (m *minimiser) minimise(s0 *scn.Scenario) *scn.Scenario {
 			cur = c
 		}
 	}
+	if len(cur.Faults.Stalls) > 0 {
+		c := clone(cur)
+		c.Faults.Stalls = nil
+		if ok, _ := m.fails(c); ok {
+			cur = c
+		}
+	}
 	if cur.Knob != 0 && cur.Kind != "parse" {
 		c := clone(cur)
 		c.Knob = 0
@@ -404,6 +411,9 @@ func (b *build) decodeTrace(dir string, s *scn.Scenario) []string {
 			continue
 		}
 		out = append(out, fmt.Sprintf("step %d: task %d %s at %s -> task %d runs", st, from, kinds[kind&7], b.siteInfo(site), to))
+	}
+	for _, st := range s.Faults.Stalls {
+		out = append(out, fmt.Sprintf("fault: task %d stalled (passed over while anybody else can run) from step %d to step %d", st[0], st[1], st[2]))
 	}
 	for _, g := range s.Faults.GCSteps {
 		out = append(out, fmt.Sprintf("fault: forced GC at step %d", g))
